@@ -185,6 +185,9 @@ def _check_wrap(ctx, f: FuncInfo) -> tuple:
     rule = "R-WRAP"
     df = DataFlow(f.node)
     sinks = _scatter_sinks(f)
+    if not sinks:
+        if _check_wrap_flat(ctx, f, df):
+            return df, []
     ctx.require(len(sinks) >= 1, f"{f.qualname}: no scatter-add sink (xp.add.at / scatter_add) found")
     for c in sinks:
         ctx.require(len(c.args) == 3, f"{f.qualname}: scatter call {norm_text(c)[:60]} does not have 3 arguments")
@@ -216,6 +219,67 @@ def _check_wrap(ctx, f: FuncInfo) -> tuple:
                           + ": an atom next to the cell edge is dropped / raises instead of wrapping periodically")
                 ctx.violation(rule, construct, f.loc(c), detail, key_detail="wrap")
     return df, sinks
+
+
+def _check_wrap_flat(ctx, f: FuncInfo, df: DataFlow) -> bool:
+    """Flattened accumulation: array += bincount(FLAT.ravel(), weights=...).reshape(shape) with
+    FLAT = (I * n_cols + J) [% size].  I and J must each be wrapped modulo their own axis *before* they are
+    combined: a modulo on the flat index wraps a column overflow into the next row."""
+    rule = "R-WRAP"
+    bcs = [c for c in walk_no_nested(f.node) if isinstance(c, ast.Call) and (dotted(c.func) or "").endswith("bincount")]
+    if not bcs:
+        return False
+    target = f.positional_params[1] if len(f.positional_params) > 1 else "array"
+    for c in bcs:
+        st = _stmt_containing(f.node, c)
+        node = df.cfg.node_of(st)
+        flat = c.args[0]
+        flat_mod = False
+        hops = 0
+        while hops < 8:
+            hops += 1
+            if isinstance(flat, ast.Call) and isinstance(flat.func, ast.Attribute) and flat.func.attr in (
+                    "ravel", "flatten", "astype", "reshape"):
+                flat = flat.func.value
+            elif isinstance(flat, ast.Name):
+                d = df.single_def(node.idx, flat.id)
+                if d is None or d.value is None:
+                    break
+                flat = d.value
+            elif isinstance(flat, ast.BinOp) and isinstance(flat.op, ast.Mod):
+                flat_mod = norm_text(flat.right) in (f"{target}.size", "array.size")
+                flat = flat.left  # a modulo on the flat index wraps rows only, never columns
+            else:
+                break
+        wa = _WrapAnalysis(f, df, target)
+        ok_shape = isinstance(flat, ast.BinOp) and isinstance(flat.op, ast.Add)
+        comps = None
+        if ok_shape:
+            for a, b in ((flat.left, flat.right), (flat.right, flat.left)):
+                if isinstance(a, ast.BinOp) and isinstance(a.op, ast.Mult):
+                    for i_, n_ in ((a.left, a.right), (a.right, a.left)):
+                        if wa.axis_len(n_, node.idx) == 1:
+                            comps = (i_, b)
+        if comps is None:
+            raise AnalysisError(f"{f.qualname}: flat scatter index `{norm_text(flat)[:60]}` is not rows * n_cols + cols")
+        for axis, comp in enumerate(comps):
+            wa = _WrapAnalysis(f, df, target)
+            got = wa.axes(comp, node.idx)
+            construct = f"{f.qualname}:bincount:index[{axis}]"
+            if axis == 0 and flat_mod and got != {axis}:
+                ctx.ok(rule, construct, f.loc(c), "row overflow is wrapped by the modulo on the flat index")
+                continue
+            if got == {axis}:
+                ctx.ok(rule, construct, f.loc(c), f"`{norm_text(comp)}` is reduced modulo {target}.shape[{axis}] before "
+                                                  "flattening")
+            else:
+                ctx.violation(rule, construct, f.loc(c),
+                              f"index component {axis} `{norm_text(comp)}` of the flattened scatter index is not reduced "
+                              f"modulo {target}.shape[{axis}] on every path ("
+                              + "; ".join(dict.fromkeys(wa.problems))
+                              + "); a modulo applied to the flat index wraps a column overflow into the next row instead "
+                                "of the same row", key_detail="wrap")
+    return True
 
 
 # ----------------------------------------------------------------------------------------- R-PARTITION-OF-UNITY
